@@ -12,6 +12,8 @@ import ZstdVerif.Lemmas.SeqRT
 import ZstdVerif.Lemmas.FrameRT
 import ZstdVerif.Lemmas.BlockRT
 import ZstdVerif.Lemmas.NCountRT
+import ZstdVerif.Lemmas.SpreadRT
+import ZstdVerif.Lemmas.DescribedTables
 namespace ZstdVerif.Props.C01
 open ZstdVerif
 
@@ -180,6 +182,34 @@ theorem fse_roundtrip {norm : Array Int} {L : Nat} (hN : NormOK norm L) (hL : L 
     (σ : List Nat) (hne : σ ≠ []) (hσ : ∀ s, s ∈ σ → s < norm.size ∧ norm[s]! ≠ 0) :
     decodeAll (buildCells norm L) L σ.length (encodeAll (buildCTable norm L) σ) = some (σ, []) :=
   build_roundtrip hN hL hS hE σ hne hσ
+
+open FSE in
+/-- **fse_spread_agree** (FSE_buildCTable_wksp, lib/compress/fse_compress.c, vs FSE_buildDTable_internal, lib/common/fse_decompress.c /
+ZSTD_buildFSETable_body, lib/decompress/zstd_decompress_block.c): for EVERY normalised distribution (counts ≥ -1, a "less than one" count
+taking one cell, the cells adding up to `2^L`) the encoder's own copy of the spreading code - low-probability symbols from the top, then
+either its fast path (8-byte writes into `spread[]`, two cells dealt per turn) or the `step` walk that skips the low-probability area -
+lays down exactly the table of the decoder-side spreading.  This was a run-time side condition (`spreadEncEqDec=true`). -/
+theorem fse_spread_agree {norm : Array Int} {L : Nat} (hN : NormOK norm L) : spreadEnc norm L = spread norm L :=
+  spreadEnc_eq_spread hN
+
+open FSE in
+/-- **fse_spread_complete**: for EVERY normalised distribution and every table of at least 16 cells (`4 ≤ L`; the format has
+`FSE_MIN_TABLELOG = 5 ≤ L`) the spreading respects the counts - `2^L` positions, each holding a symbol of the alphabet, every symbol as
+often as its normalised count says (once for -1, never for 0).  Reason: `step = (size>>1) + (size>>3) + 3` is odd and `size` a power
+of two, so the first `size` positions of the walk are a rearrangement of all positions (`FSE.walk_perm`); the walk therefore meets each
+free position exactly once, and the `while (position > highThreshold)` loop never runs out of its budget.  This was a run-time side
+condition (`spreadOK=true`), stated for both procedures. -/
+theorem fse_spread_complete {norm : Array Int} {L : Nat} (hN : NormOK norm L) (hL : 4 ≤ L) :
+    spreadOK (spread norm L) norm L = true ∧ spreadOK (spreadEnc norm L) norm L = true := by
+  have h := (spreadOK_iff _ _ _).2 (spread_ok hN hL)
+  exact ⟨h, by rw [spreadEnc_eq_spread hN]; exact h⟩
+
+open FSE in
+/-- **fse_roundtrip_any_distribution**: `fse_roundtrip` with the two spreading facts proved instead of assumed -/
+theorem fse_roundtrip_any_distribution {norm : Array Int} {L : Nat} (hN : NormOK norm L) (hL4 : 4 ≤ L) (hL : L ≤ 14)
+    (σ : List Nat) (hne : σ ≠ []) (hσ : ∀ s, s ∈ σ → s < norm.size ∧ norm[s]! ≠ 0) :
+    decodeAll (buildCells norm L) L σ.length (encodeAll (buildCTable norm L) σ) = some (σ, []) :=
+  build_roundtrip hN hL (fse_spread_complete hN hL4).2 (spreadEnc_eq_spread hN) σ hne hσ
 
 open FSE in
 /-- the three predefined distributions of the format (dumped from the source each run): unconditional round trip -/
@@ -427,6 +457,42 @@ theorem roundtrip (a : HArgs) (bs : List BlockChoice2) (x : ByteArray) (dict : F
     (cap : Nat) (hcap : x.size ≤ cap) (o : Frame.Opts) (hml : o.magicless = false) (hmb : o.maxBlockSize = 0) :
     ∃ traces, Frame.decompressAll (serializeFrame2 a bs x) dict cap o = .ok (x, traces) :=
   BlockRT.frame_roundtrip_compressed a bs x dict hok hrep0 cap hcap o hml hmb
+
+open BlockEnc BlockRT in
+/-- **tableOK_of_distribution**: the table hypothesis of `block_roundtrip` / `roundtrip` (`BlockRT.TableOK`) follows from its distribution
+part alone (`BlockRT.TableDescOK`: normalised distribution, `5 ≤ L ≤ maxLog`, alphabet within the limit, last symbol present) -/
+theorem tableOK_of_distribution {maxSym maxLog : Nat} {c : SeqTableChoice} (h : TableDescOK maxSym maxLog c) : TableOK maxSym maxLog c :=
+  BlockRT.tableOK_of_distribution h
+
+open Gen FSE SeqEnc LitEnc BlockEnc Rep BlockRT in
+/-- **block_roundtrip_described_tables**: `block_roundtrip` whose table hypothesis no longer mentions the spreading of symbols:
+`TablesDescOK` asks of a described table (`set_compressed`) only a normalised distribution with `5 ≤ tableLog ≤` LLFSELog / OffFSELog /
+MLFSELog, an alphabet within MaxLL / MaxOff / MaxML and its last symbol present -/
+theorem block_roundtrip_described_tables (dict pre prev x lits : ByteArray) (raws : List SeqRT.RawSeq) (c : LitChoice) (t : Tables)
+    (src : Bytes) (start : Nat) (ent : Block.Entropy) (bsm cap : Nat) (pt : Option Tables)
+    (hv : Exec.ValidParse dict prev x lits (raws.map toSeq))
+    (hx : x.size ≤ bsm) (hb17 : bsm ≤ 2 ^ 17) (hoff : ∀ q ∈ raws, q.rawOffset + 3 < 2 ^ 32)
+    (hrep : RepPos (SeqRT.repOf ent.rep)) (hent : EntMatch pt ent)
+    (hc : LitOK c lits) (hrp : usesRepeat t = true → pt.isSome = true) (hT : TablesDescOK (Tables.resolve (pt.getD {}) t))
+    (hok : CodesOK (Tables.resolve (pt.getD {}) t) (SeqRT.storeAll (SeqRT.repOf ent.rep) raws).1)
+    (H : FrameRT.Holds src start (serializeBlockBody c lits t (SeqRT.storeAll (SeqRT.repOf ent.rep) raws).1 (pt.getD {})))
+    (hsize : (serializeBlockBody c lits t (SeqRT.storeAll (SeqRT.repOf ent.rep) raws).1 (pt.getD {})).size ≤ bsm)
+    (hcap : pre.size + prev.size + x.size ≤ cap) :
+    ∃ ent2 tr, Block.decodeBlock src start (serializeBlockBody c lits t (SeqRT.storeAll (SeqRT.repOf ent.rep) raws).1 (pt.getD {})).size
+        ent dict { out := pre ++ prev, frameStart := pre.size, cap := cap } bsm = .ok (pre ++ prev ++ x, ent2, tr) ∧
+      SeqRT.repOf ent2.rep = (SeqRT.storeAll (SeqRT.repOf ent.rep) raws).2 ∧ RepPos (SeqRT.repOf ent2.rep) ∧ tr.nbSeq = raws.length ∧
+      EntMatch (nextTables pt t (SeqRT.storeAll (SeqRT.repOf ent.rep) raws).1) ent2 :=
+  BlockRT.block_roundtrip_described_tables dict pre prev x lits raws c t src start ent bsm cap pt hv hx hb17 hoff hrep hent hc hrp hT hok H
+    hsize hcap
+
+open HeaderW BlockEnc BlockRT in
+/-- **roundtrip_described_tables**: `roundtrip` under `FrameOK2D` = `FrameOK2` with `TablesDescOK` in place of `TablesOK`: no hypothesis on
+the spreading of symbols is left; whatever normalised distribution the compressor decides to describe, the frame decodes to `x` -/
+theorem roundtrip_described_tables (a : HArgs) (bs : List BlockChoice2) (x : ByteArray) (dict : Frame.Dict)
+    (hok : FrameOK2D dict.content a bs x) (hrep0 : SeqRT.repOf dict.ent.rep = repStart)
+    (cap : Nat) (hcap : x.size ≤ cap) (o : Frame.Opts) (hml : o.magicless = false) (hmb : o.maxBlockSize = 0) :
+    ∃ traces, Frame.decompressAll (serializeFrame2 a bs x) dict cap o = .ok (x, traces) :=
+  BlockRT.frame_roundtrip_described_tables a bs x dict hok hrep0 cap hcap o hml hmb
 
 open BlockEnc BlockRT in
 /-- the predefined tables accept every sequence of the format's usual ranges (offsets below 2^29 - 3): no table hypothesis is left for them -/
